@@ -64,6 +64,8 @@ type objState struct {
 	reads       map[int][]int // thread -> vc at its last read
 	readAt      map[int]string
 	relVC       []int // released clock (locks / atomics)
+	heldBy      int   // lock ownership: thread holding it (-1 none); re-entrant per thread
+	depth       int
 }
 
 type runner struct {
@@ -78,7 +80,7 @@ type runner struct {
 func (r *runner) obj(o interface{}) *objState {
 	s, ok := r.objs[o]
 	if !ok {
-		s = &objState{lastWriteT: -1, reads: map[int][]int{}, readAt: map[int]string{}}
+		s = &objState{lastWriteT: -1, heldBy: -1, reads: map[int][]int{}, readAt: map[int]string{}}
 		r.objs[o] = s
 	}
 	return s
@@ -140,8 +142,16 @@ func (r *runner) onAccess(k verifhook.Kind, o interface{}, site string) {
 			if s.relVC != nil {
 				join(t.vc, s.relVC)
 			}
+			s.heldBy = t.id
+			s.depth++
 		case verifhook.Release:
 			s.relVC = cp(t.vc)
+			if s.depth > 0 {
+				s.depth--
+			}
+			if s.depth == 0 {
+				s.heldBy = -1
+			}
 		case verifhook.AtomicRW:
 			if s.relVC != nil {
 				join(t.vc, s.relVC)
@@ -192,16 +202,37 @@ func Run(sc Scenario, prefix []int) (*Exec, error) {
 	x := &Exec{}
 	running := -1
 	for {
+		// a thread about to acquire a lock that another thread holds is not enabled
+		blocked := func(t *thread) bool {
+			if t.pending == nil || t.pending.kind != verifhook.Acquire {
+				return false
+			}
+			s := r.obj(t.pending.obj)
+			return s.heldBy >= 0 && s.heldBy != t.id
+		}
 		var enabled []int
-		if running >= 0 && !r.threads[running].done {
+		live := 0
+		if running >= 0 && !r.threads[running].done && !blocked(r.threads[running]) {
 			enabled = append(enabled, running)
 		}
 		for _, t := range r.threads {
-			if !t.done && t.id != running {
+			if !t.done {
+				live++
+			}
+			if !t.done && t.id != running && !blocked(t) {
 				enabled = append(enabled, t.id)
 			}
 		}
 		if len(enabled) == 0 {
+			if live > 0 {
+				// every live thread waits for a lock: the parked goroutines are abandoned
+				x.Deadlock = true
+				for _, t := range r.threads {
+					if !t.done {
+						t.outcome = "DEADLOCK waiting at " + t.pending.site
+					}
+				}
+			}
 			break
 		}
 		choice := 0
